@@ -262,6 +262,10 @@ func scenarioFeeder(t *traceWriter, rng *rand.Rand) {
 			if c.cancel {
 				timeout = 1200 * time.Millisecond
 			}
+			preState := "?"
+			if c.realW {
+				preState = s.readState(l.id)
+			}
 			ctx, cancel := context.WithTimeout(context.Background(), timeout)
 			t0 := time.Now()
 			ret, err := feeder.FeedOnce(ctx, opts)
@@ -284,9 +288,13 @@ func scenarioFeeder(t *traceWriter, rng *rand.Rand) {
 			if c.realW {
 				kind = "real"
 			}
-			t.line("FD %s origin=%s vname=%s vhash=%d vid=%s cp=%s witness=%s wsize=%d lsize=%d forked=%v pattern=%s cancel=%v hang=%d answers=%s => calls=%s result=%s",
+			postState := "?"
+			if c.realW {
+				postState = s.readState(l.id)
+			}
+			t.line("FD %s origin=%s vname=%s vhash=%d vid=%s cp=%s witness=%s wsize=%d lsize=%d forked=%v pattern=%s cancel=%v hang=%d pre=%s post=%s answers=%s => calls=%s result=%s",
 				s.id, hx([]byte(origin)), hx([]byte(key.verif.Name())), key.verif.KeyHash(), l.rv.vid, hx(fetched), kind, c.wsize, c.lsize, c.forked,
-				"."+c.pattern, c.cancel, hang, strings.Join(sw.answers, ";"), strings.Join(sw.calls, ";"), result)
+				"."+c.pattern, c.cancel, hang, preState, postState, strings.Join(sw.answers, ";"), strings.Join(sw.calls, ";"), result)
 			sw.mu.Unlock()
 			mu.Lock()
 			s.end()
